@@ -1,0 +1,25 @@
+//go:build verif
+
+package ratelimiter
+
+import "time"
+
+type verifStopwatch struct{ elapsed func() time.Duration }
+
+func (s verifStopwatch) ElapsedTime() time.Duration { return s.elapsed() }
+func (s verifStopwatch) Reset()                      {}
+
+// VerifSetStopwatch replaces the elapsed-time source of a built limiter. Verification hook, only built with -tags verif.
+func VerifSetStopwatch[R any](l RateLimiter[R], elapsed func() time.Duration) {
+	sw := verifStopwatch{elapsed: elapsed}
+	switch s := l.(*rateLimiter[R]).stats.(type) {
+	case *smoothStats[R]:
+		s.mtx.Lock()
+		s.stopwatch = sw
+		s.mtx.Unlock()
+	case *burstyStats[R]:
+		s.mtx.Lock()
+		s.stopwatch = sw
+		s.mtx.Unlock()
+	}
+}
